@@ -493,6 +493,35 @@ class Sugar:
             return two(to(B.use(B.const_bool(False))), err_bb)
         return False
 
+    # -------------------------------------------------------------------------------- direct closure calls
+    def expand_closure_call(self, bi, dep, stack):
+        """`let f = |x| ..; f(a)`: the call is resolved to the closure body; its arguments arrive as
+        one tuple."""
+        b = self.blocks[bi]
+        t = b["term"]
+        cb = self.facts.body(t.get("res") or "") if not t.get("virtual") else None
+        is_fn_trait = re.match(r"^std::ops::(Fn|FnMut|FnOnce)::(call|call_mut|call_once)$", t.get("def") or "") is not None
+        if not ((cb is not None and cb.kind == "Closure") or is_fn_trait) or len(t["args"]) != 2 or t.get("t") is None:
+            return False
+        target, captured = resolve_closure(self.facts, self.blocks, t["args"][0])
+        if target is None or isinstance(target, tuple):
+            return False
+        # the argument tuple
+        pl = operand_place(t["args"][1])
+        if pl is None or pl["p"]:
+            return False
+        ds = defs_of(self.blocks, pl["l"])
+        if len(ds) != 1 or ds[0][0] != "stmt" or ds[0][2]["rv"]["k"] != "agg" or ds[0][2]["rv"].get("agg") != "tuple":
+            return False
+        args = list(ds[0][2]["rv"]["ops"])
+        if len(args) != target.argc - 1 or target.id in stack or target.coroutine:
+            return False
+        B = Builder(self.facts, self.locals, self.blocks, self.origin, t.get("span"))
+        entry = self.call_closure(B, t["args"][0], args, t["dest"], t["t"], dep, stack)
+        b["term"] = {"k": "goto", "t": entry, "span": t.get("span"), "sugar_site": t}
+        self.expanded.append((bi, "closure-call"))
+        return True
+
     # -------------------------------------------------------------------------------- iterator pipelines
     LAZY = {"map": "val", "filter": "ref", "filter_map": "val", "take_while": "ref", "map_while": "val", "inspect": "ref", "skip_while": "ref"}
     CONSUMERS = {"find": "ref", "find_map": "val", "any": "val", "all": "val", "for_each": "val", "position": "val"}
